@@ -171,6 +171,9 @@ def binder_summaries(prog: Program, rep: Report):
             rep.undecided("R10.1", c.qualname, f.loc, "binder expression outside the summary idiom set: " + T.show(r)[:300])
             continue
         out[c.qualname] = (pos, kw)
+        if kw == "named_else_key":
+            rep.violated("R10.1", c.qualname, f.loc, "a keyword that is not registered for conversion is forwarded with its *name* as its value (`binding[k](v) if k in binding else k`): a class that accepts further keywords -- a TypedDict class, whose signature the library makes up -- is called with them corrupted: bind(Options)(a='1', extra='3') returns {'a': 1, 'extra': 'extra'}", {"pos": pos, "kw": kw}, detail="unregistered-keyword-value")
+            continue
         rep.held("R10.1", c.qualname, f.loc, f"summary pos={pos} kw={kw}", {"pos": pos, "kw": kw})
     return out
 
@@ -247,6 +250,45 @@ def _startpos_vars(prog: Program) -> set:
     return out
 
 
+_OWN_HELPERS: dict = {}
+
+
+def own_param(prog: Program, term):
+    """The parameter X when `term` is the routine for X's own annotation: unmarshaller(X.annotation), or a call of a private
+    helper of the binding module every return of which is that, or -- for an annotation that is a string -- the lazy proxy
+    over refs.forwardref(X.annotation, module=<the callable's __module__>)."""
+    UM = "typelib.unmarshals.api.unmarshaller"
+    if T.is_call_to(term, UM) and len(term[2]) == 1 and not term[3] and term[2][0][0] == "attr" and term[2][0][2] == "annotation":
+        return term[2][0][1]
+    if term[0] == "call" and term[1][0] == "ref" and term[1][1].startswith(f"{MOD}._") and term[1][1] in prog.functions and not term[3]:
+        g = prog.functions[term[1][1]]
+        key = (id(prog), g.qualname)
+        if key not in _OWN_HELPERS:
+            ok = None
+            for gp, r in P.returns(P.paths_of(prog, g)):
+                x = None
+                if T.is_call_to(r, UM) and len(r[2]) == 1 and r[2][0][0] == "attr" and r[2][0][2] == "annotation" and r[2][0][1][0] == "param":
+                    x = r[2][0][1][1]
+                elif r[0] == "call" and (T.refname(r[1]) or "").endswith(".DelayedUnmarshaller") and r[2]:
+                    fr = r[2][0]
+                    if T.is_call_to(fr, "typelib.py.refs.forwardref") and fr[2] and fr[2][0][0] == "attr" and fr[2][0][2] == "annotation" and fr[2][0][1][0] == "param":
+                        mod = dict(fr[3]).get("module")
+                        from_callable = mod is not None and T.contains(mod, lambda y: y == ("const", "__module__") or (y[0] == "attr" and y[2] == "__module__"))
+                        if from_callable:
+                            x = fr[2][0][1][1]
+                if x is None:
+                    ok = False
+                    break
+                ok = x if ok in (None, x) else False
+                if ok is False:
+                    break
+            _OWN_HELPERS[key] = ok
+        pn = _OWN_HELPERS[key]
+        if pn and pn in g.params and len(term[2]) > g.params.index(pn):
+            return term[2][g.params.index(pn)]
+    return None
+
+
 def factory_facts(prog: Program, rep: Report):
     f = prog.function(f"{MOD}._get_binding")
     ps = P.paths_of(prog, f)
@@ -286,7 +328,7 @@ def factory_facts(prog: Program, rep: Report):
             for e in p.events:
                 if e[0] == "setitem" and e[1][0] == "dict":
                     idx, val = e[2], e[3]
-                    if not (T.is_call_to(val, "typelib.unmarshals.api.unmarshaller") and len(val[2]) == 1 and val[2][0][0] == "attr" and val[2][0][2] == "annotation"):
+                    if own_param(prog, val) is None:
                         um_ok = False
                     um_term = val
                     if idx[0] == "index":
@@ -295,7 +337,7 @@ def factory_facts(prog: Program, rep: Report):
                         reg_name = True
             if um_term is None:
                 for e in p.events:
-                    if e[0] == "assign" and T.is_call_to(e[2], "typelib.unmarshals.api.unmarshaller") and len(e[2][2]) == 1 and e[2][2][0][0] == "attr" and e[2][2][0][2] == "annotation":
+                    if e[0] == "assign" and own_param(prog, e[2]) is not None:
                         um_term = e[2]
             truth = None
             truth_call = None
@@ -529,7 +571,7 @@ class FactorySim:
                 truth = {k: (v[1] if v[0] == "const" else None) for k, v in c[3]}
 
         def own(v, j):
-            return T.is_call_to(v, "typelib.unmarshals.api.unmarshaller") and v[2] == (("attr", ("ref", f"<param:{j}>"), "annotation"),)
+            return own_param(self.prog, v) == ("ref", f"<param:{j}>")
 
         def which(v):
             if v is None or v == ("const", None):
@@ -991,9 +1033,39 @@ def r10_6(prog: Program, rep: Report):
     rep.check(not textual, "R10.6", f.qualname, f.loc, f"the {n} predicate(s) guarding the special-cased signatures do not read the object's text (or apply to classes only)", f"signature() special-cases an object when {sorted(set(textual))[0] if textual else ''}(obj) holds, and that predicate reads str(obj): the text of a bound method or callable instance contains the repr of the instance, so bind(svc.add) for a dataclass instance with a list field (repr 'Service(seen=[])') takes the tuple branch and raises TypeError: issubclass() arg 1 must be a class", detail="no-text-predicates")
 
 
+def r10_7(prog: Program, rep: Report):
+    """An annotation that is a *string* (`from __future__ import annotations`, a quoted forward reference) names something in
+    the module of the callable.  Handed to the memoised routine factory as a bare string it is looked up from the stack of
+    whoever binds the callable, and at once -- while the class or module that the name belongs to may still be in the making.
+    Wherever the factory is applied to `param.annotation`, the path has established that the annotation is not a string."""
+    f = prog.function(f"{MOD}._get_binding")
+    UM = "typelib.unmarshals.api.unmarshaller"
+    n, bad = 0, 0
+    for p in P.splice_helpers(prog, P.paths_of(prog, f)):
+        calls = [x for tm in p.all_terms() for x in T.walk(tm) if T.is_call_to(x, UM) and len(x[2]) == 1 and x[2][0][0] == "attr" and x[2][0][2] == "annotation"]
+        if not calls:
+            continue
+        atoms = T.derive_atoms(p.guards())
+        for c in dict.fromkeys(calls):
+            ann = c[2][0]
+            n += 1
+            not_str = any(
+                ((not val) and ((a[0] == "cmp" and a[1] == "is" and ("attr", ann, "__class__") in a[2:4] and ("ref", "builtins.str") in a[2:4]) or (T.is_call_to(a, "builtins.isinstance") and a[2][:1] == (ann,) and T.contains(a[2][1], lambda z: z == ("ref", "builtins.str")))))
+                for a, val in atoms
+            )  # fmt: skip
+            if not not_str:
+                bad += 1
+    if not n:
+        rep.undecided("R10.7", f.qualname, f.loc, "no routine is built from a parameter's annotation", detail="string-annotation")
+        return
+    rep.check(not bad, "R10.7", f.qualname, f.loc, f"the routine factory is applied to param.annotation only where the annotation is known not to be a string ({n} site(s) on paths)", "param.annotation is handed to the memoised routine factory whatever it is: a string annotation (PEP 563 module, quoted forward reference) is then looked up from the stack of whoever calls bind()/wrap() -- a function of another module gets the caller's unrelated class of that name, or NameError -- and at decoration time: `@wrap def merge(self, other: 'Node')` inside the body of Node raises NameError", detail="string-annotation")
+
+
 def run(prog: Program, rep: Report, tier: str):
     global MAXN
     MAXN = 3 if tier == "thorough" else 2
+    rep.rule("R10.7", "string annotations are resolved in the callable's module, when first needed", floor=1)
+    r10_7(prog, rep)
     rep.rule("R10.1", "each binder's __call__ reduces to an effect summary (pos segments, keyword mode)", floor=16)
     rep.rule("R10.2", "_get_binding per-kind facts: own-annotation unmarshaller registered by index and name, own flag, varpos/varkwd, binding flow", floor=15)
     rep.rule("R10.3", "all 32 matrix rows route every accepted call shape to the parameter's own unmarshaller", floor=33)
